@@ -10,7 +10,7 @@ Top-level postconditions are transcribed from the property statements (propertie
 import z3
 
 from pyvc.vals import Val, NONE, Z, ref, fresh, cls_of, STRINGS, has_attr, attr_of, is_callable, PENDING, FINISHED
-from pyvc.verify import Unit, sym_inst, sym_val, user_calls
+from pyvc.verify import Unit, sym_inst, sym_val, user_calls, new_inst
 from pyvc.symexec import Raise
 from .base import make_cfg, own_future_may_only_be_cancelled
 
@@ -261,8 +261,7 @@ def _cfg_ctor():
 
 def _setup_ctor(cls_name, variant):
     def setup(engine, st):
-        oid = st.alloc(cls_name)
-        st.assume(cls_of(z3.IntVal(oid)) == engine.tag(cls_name))
+        oid = engine.concrete_id(new_inst(engine, st, cls_name).t)        # fresh, private, every field UNSET
         me = Z(ref(oid), _INST(cls_name))
         d = sym_val(engine, st, "future", "delegate")
         args = [me, d]
